@@ -3,6 +3,7 @@ import Nlmodel.Model.Pipeline
 import Nlmodel.Driver.Instrumented
 import Nlmodel.Driver.Tables
 import Nlmodel.Driver.ObjOps
+import Nlmodel.Driver.TreeGen
 open Nl
 
 /-- character classes: loaded from the table dumped by the harness from Rust's std
@@ -45,6 +46,18 @@ def showConst : Const → String
   | .str s => "s:" ++ hexText s
   | .fn ip nl => "fn:" ++ toString ip ++ ":" ++ toString nl
 
+/-- print a tree under layout `layout` (0 = canonical: single blanks, every separator present) -/
+def emitTree (r : TreeGen.R) (b : Block) (layout : Nat) : String :=
+  let toks := printProgram b
+  if layout = 0 then
+    b.sexp ++ " | " ++ hexText (render toks (List.replicate (toks.length + 1) 1))
+  else
+    let r := TreeGen.mkR (r.s.toNat + layout)
+    let (r, toks) := TreeGen.dropSeps r toks
+    let (_, ks) := (List.range (toks.length + 1)).foldl
+      (fun (acc : TreeGen.R × List Nat) _ => let (r, k) := acc.1.below 40; (r, (if k < 17 then k else if k < 30 then 1 else 0) :: acc.2)) (r, [])
+    b.sexp ++ " | " ++ hexText (render toks ks)
+
 def handle (cc : CharClass) (line : String) : String :=
   match line.trimAscii.toString.splitOn " " with
   | ["lex", h] =>
@@ -72,6 +85,25 @@ def handle (cc : CharClass) (line : String) : String :=
     match unhexText h with
     | some t => (evalText cc b.toNat! t).show
     | none => "bad-hex"
+  | ["gentree", seed, depth, layout] =>
+    let r := TreeGen.mkR seed.toNat!
+    let (r, b) := TreeGen.genB r depth.toNat!
+    emitTree r b layout.toNat!
+  | ["enumtree", idx, layout] =>
+    match TreeGen.enumTree idx.toNat! with
+    | some e => emitTree (TreeGen.mkR (idx.toNat! + 7)) (.cons (.expr e) .nil) layout.toNat!
+    | none => "none"
+  | ["enumcount"] => toString TreeGen.enumCount
+  | "rendertoks" :: ks :: toks =>
+    -- ks: comma separated separator choices (one per token + trailing); missing ones are 0
+    match toks.mapM Token.ofShow with
+    | some ts => hexText (render ts ((ks.splitOn ",").map String.toNat!))
+    | none => "bad-token"
+  | ["escape", h] =>
+    match unhexText h with
+    | some t => hexText (escape t)
+    | none => "bad-hex"
+  | ["sepcount"] => toString sepTable.length
   | ["tables"] => modelTables
   | "obj" :: rest => handleObj rest
   | ["evalx", b, h] =>
